@@ -168,6 +168,11 @@ def _adapter_obj(repo, cname, n, kinds=None, extra=None, ctor=None):
     set_backed(repo, o, "name", cname)
     set_backed(repo, o, "in_info", Obj(label="in_info", fields={"grid": Sym("grid"), "units": Sym("u_in")}))
     set_backed(repo, o, "info", Obj(label="out_info", fields={"grid": Sym("grid"), "units": Sym("u_out")}))
+    # the buffer entries in the form the class itself stores them (a plain pair, a named tuple, ...): produced by the real
+    # notification path, then given the scenario's times / payload stand-ins
+    shaped = _entries_as_stored(repo, c, o, n, kinds)
+    if shaped is not None:
+        o.fields["data"] = shaped
     from .spill2 import role_set
     role_set(o, _total_attr(repo, cname), Sym("mem0"))
     if extra:
@@ -176,6 +181,42 @@ def _adapter_obj(repo, cname, n, kinds=None, extra=None, ctor=None):
             o.fields[prev_attr(repo)] = extra.pop(PREV)
         o.fields.update(extra)
     return o
+
+
+def _entries_as_stored(repo, c, o, n, kinds):
+    from ..interp import NamedTup
+    cache = repo.__dict__.setdefault("_entry_shape", {})
+    if c.name not in cache:
+        shape = None
+        try:
+            probe = _fresh(o)
+            probe.fields["data"] = []
+            it = BufInterp(repo, Order())
+            tn = Sym("tn")
+            it.order.name(tn, "tn", 1)
+            f = repo.resolve(c, "source_updated", "method")
+            if f is not None:
+                it.run(f, [tn], self_obj=probe)
+                got = probe.fields.get("data") or []
+                if len(got) == 1 and isinstance(got[0], tuple):
+                    e = got[0]
+                    ti = [i for i, x in enumerate(e) if x == tn]
+                    pi = [i for i, x in enumerate(e) if isinstance(x, Sym) and x.op == "packed"]
+                    if len(ti) == 1 and len(pi) == 1 and len(e) == 2:
+                        shape = (ti[0], pi[0], e if isinstance(e, NamedTup) else None)
+        except (Raised, Undecided, AnalysisError, KeyError, TypeError):
+            shape = None
+        cache[c.name] = shape
+    shape = cache[c.name]
+    if shape is None or (shape[0], shape[1]) == (0, 1) and shape[2] is None:
+        return None  # plain (time, payload) pairs: what the scenario has already
+    ti, pi, proto = shape
+    out = []
+    for i in range(n):
+        vals = [None, None]
+        vals[ti], vals[pi] = T(i), P(i, kinds[i])
+        out.append(NamedTup(proto.klass, proto.names, vals) if proto is not None else tuple(vals))
+    return out
 
 
 def _poly_eq(a, b):
